@@ -25,7 +25,7 @@ def main():
         with open(os.path.join(out, m["name"] + ".patch"), "w") as fh:
             fh.write("".join(diffs))
         index.append({"name": m["name"], "patch": m["name"] + ".patch", "property": m["property"], "why": m["why"],
-                      "runs": m.get("runs")})
+                      "runs": m.get("runs"), "expect": m.get("expect", "violation")})
     json.dump(index, open(os.path.join(out, "index.json"), "w"), indent=1)
     print("wrote %d mutants" % len(index))
 main()
